@@ -1,6 +1,7 @@
 """C14 - any input string is parsed or rejected with the library's parsing error."""
 import traceback
 
+from mc.explorer import Skip
 from mc.runner import Sub
 from models import lexer as LX
 from props.common import FLAG_SETS, Timeout, parser_for, with_timeout
@@ -36,17 +37,22 @@ TOKENS_T = TOKENS_Q + ["^", "2", "{a}", "`a`"]
 ALL_FLAGS = ("TWOSIDED", "MULTIPART", "MULTISTAGE")
 AVAIL = ["a", "b"]
 WATCHDOG_S = 5.0
+OPERAND_KINDS = ("name", "number", "dot", "qname", "brace", "call", "string")
 
 
 # ---------------------------------------------------------------------------
 # running the real parser and classifying the outcome
 
 def _where(exc):
-    """innermost formulaic function on the traceback (the raising function)"""
-    name = None
-    for fr in traceback.extract_tb(exc.__traceback__):
-        if "/formulaic/" in fr.filename:
-            name = fr.name
+    """innermost formulaic function on the traceback (the raising function), e.g. 'operators.power.<genexpr>'"""
+    name, tb = None, exc.__traceback__
+    while tb is not None:
+        code = tb.tb_frame.f_code
+        if "/formulaic/" in code.co_filename:
+            q = getattr(code, "co_qualname", code.co_name).replace(".<locals>", "")
+            q = ".".join(q.split(".")[-3:]) if "<" in q else q.split(".")[-1]
+            name = q
+        tb = tb.tb_next
     return name or "?"
 
 
@@ -87,8 +93,8 @@ def real_python_tokens(s):
 
 
 def syntaxerror_justification(s, lx):
-    for frag in lx.python_fragments():
-        if not LX.python_valid(frag):
+    for t in lx.tokens:
+        if t.is_python and (not t.complete or not LX.python_valid(t.text)):
             return "reference-lexer"
     for frag in real_python_tokens(s):
         if not LX.python_valid(frag):
@@ -101,21 +107,24 @@ def needed_flags(lx):
     if not lx.ok or lx.unspec:
         return set()
     need, stack = set(), []
-    first_at = {0: 0}  # index of the first token of the current bracket group
-    for i, t in enumerate(lx.tokens):
+    operands = 0  # operand tokens seen so far
+    for t in lx.tokens:
         if t.kind == "open":
-            stack.append((t.text, i))
+            stack.append((t.text, operands))
         elif t.kind == "close":
             if stack:
                 stack.pop()
         elif t.kind == "op" and t.text == "|":
             need.add("MULTIPART")
         elif t.kind == "op" and t.text == "~":
+            # binary use = some operand stands to its left in the same group ('( ) ~ a', '+ ~ a' have none)
             if not stack:
-                if i > 0:
+                if operands > 0:
                     need.add("TWOSIDED")
-            elif stack[-1][0] == "[" and stack[-1][1] < i - 1:
+            elif stack[-1][0] == "[" and operands > stack[-1][1]:
                 need.add("MULTISTAGE")
+        elif t.kind in OPERAND_KINDS:
+            operands += 1
     return need
 
 
@@ -129,27 +138,31 @@ def judge(col, tag, s, icpt, flags, avail, lx=None):
     got = run(s, icpt, flags, avail)
     cfg = "icpt=%s flags=%s avail=%s" % (icpt, "+".join(flags) or "NONE", avail)
     key = "%s :: %r %s" % (tag, s, cfg)
-    detail = {"formula": s, "include_intercept": icpt, "feature_flags": list(flags), "available": avail,
-              "outcome": got, "reference_tokens": repr(lx.tokens), "repro": repro(s, icpt, flags, avail)}
+
+    def detail(**extra):
+        d = {"formula": s, "include_intercept": icpt, "feature_flags": list(flags), "available": avail,
+             "outcome": got, "reference_tokens": repr(lx.tokens), "repro": repro(s, icpt, flags, avail)}
+        d.update(extra)
+        return d
+
     if len(lx.tokens) >= 2 or any(t.kind not in ("name", "number") for t in lx.tokens):
         col.interesting()
     k = got[0]
     col.count("outcome-" + k.lower())
     if k == "TIMEOUT":
-        col.violation(key, detail, sig="no-termination-within-5s")
+        col.violation(key, detail(), sig="no-termination-within-5s")
     elif k == "ESCAPE":
-        col.violation(key, detail, sig=got[1])
+        col.violation(key, detail(), sig=got[1])
     elif k == "SYNTAXERROR":
         why = syntaxerror_justification(s, lx)
         if why is None:
-            col.violation(key, detail, sig="SyntaxError@%s-without-invalid-python-fragment" % got[1])
+            col.violation(key, detail(), sig="SyntaxError@%s-without-invalid-python-fragment" % got[1])
         else:
             col.count("syntaxerror-justified-by-" + why)
     elif k == "OK":
         missing = needed_flags(lx) - set(flags)
         if missing:
-            detail["disabled_but_needed"] = sorted(missing)
-            col.violation(key, detail, sig="disabled-operator-accepted:" + "+".join(sorted(missing)))
+            col.violation(key, detail(disabled_but_needed=sorted(missing)), sig="disabled-operator-accepted:" + "+".join(sorted(missing)))
     if k != "OK" and (needed_flags(lx) - set(flags)):
         col.count("disabled-operator-rejected")
     return got
@@ -159,13 +172,13 @@ def judge(col, tag, s, icpt, flags, avail, lx=None):
 # drivers
 
 def drv_chars(c, ctx, col):
+    """ctx: alphabet, L, Lmin, prefix (fixed leading chars), all_flags_upto, both_icpt_upto, flag_variation"""
     alpha, L = ctx["alphabet"], ctx["L"]
-    chars = c.seq(alpha, L, ctx.get("Lmin", 0))
+    chars = list(ctx.get("prefix", ())) + c.seq(alpha, L - len(ctx.get("prefix", ())), max(0, ctx.get("Lmin", 0) - len(ctx.get("prefix", ()))))
     s = "".join(chars)
-    structural = any(ch in s for ch in "~|[")
     if len(chars) <= ctx["all_flags_upto"]:
         flag_sets = FLAG_SETS
-    elif structural:
+    elif ctx["flag_variation"] and any(ch in s for ch in "~|["):
         flag_sets = [FLAG_SETS[0], (), ALL_FLAGS]
     else:
         flag_sets = [FLAG_SETS[0]]
@@ -177,10 +190,13 @@ def drv_chars(c, ctx, col):
 
 
 def drv_tokens(c, ctx, col):
+    """ctx: sigma, L, Lmin, both_icpt_upto, all_flags_upto (longer structural strings get default / NONE / ALL)"""
     tokens = c.seq(ctx["sigma"], ctx["L"], ctx.get("Lmin", 0))
     s = " ".join(tokens)
-    icpt = not c.flag()
-    flags = c.pick(FLAG_SETS) if any(t in ("~", "|", "[") for t in tokens) else FLAG_SETS[0]
+    icpt = not c.flag() if len(tokens) <= ctx["both_icpt_upto"] else True
+    flags = FLAG_SETS[0]
+    if any(t in ("~", "|", "[") for t in tokens):
+        flags = c.pick(FLAG_SETS if len(tokens) <= ctx["all_flags_upto"] else [FLAG_SETS[0], (), ALL_FLAGS])
     avail = c.pick([None, AVAIL]) if "." in tokens else None
     judge(col, "tokens", s, icpt, flags, avail)
     col.sample({"formula": s, "include_intercept": icpt, "flags": list(flags), "available": avail})
@@ -191,7 +207,7 @@ def drv_tokens(c, ctx, col):
 OPS = ["+", "-", "*", "/", ":", "%in%", "**", "^", "|", "~"]
 EMPTY = ["(a-a)", "(b-b)", "(-a)", "(0)", "(a:b-b:a)", "((a-a))", "(a+b-b-a)"]
 PLAIN = ["a", "b", "(a+b)", "a:b", "1", "0", "(1)", "2", "2.5", "."]
-LITERALS = ["0", "1", "2", "3", "00", "01", "10", "(0)", "(1)", "(2)", "((2))", "1.5", "2.0", "2.", ".5", "(1.5)", "1e3", "1_0", "0x2",
+LITERALS = ["0", "1", "2", "3", "00", "01", "4", "(0)", "(1)", "(2)", "((2))", "1.5", "2.0", "2.", ".5", "(1.5)", "1e3", "1_0", "0x2",
             "-1", "+2", "(-1)", "(+2)", "(1+1)", "(2-1)", "(2:a)", "{2}", "`2`", "f(2)", "b", "(b)", "(b-b)", "(a-a)", ".", "(.)", "..",
             "1.5.2", '"x"', "'2'", '""', "(\"2\")", "2:a", "(2):a"]
 STRINGS = ['"x"', "'x'", '""', '"a b"', "'a+b'", '"1"', "(\"x\")", '"x":a', "`x`", "``", "{}", "{ }", "f()"]
@@ -201,7 +217,7 @@ AVAILS3 = [None, [], ["a", "b", "c"]]
 
 def drv_corners(c, ctx, col):
     family = c.pick(ctx["families"])
-    op = c.pick(OPS)
+    op = c.pick(OPS) if family != "exponent" else None
     if family == "empty-left":
         l, r = c.pick(EMPTY), c.pick(PLAIN + EMPTY)
     elif family == "empty-right":
@@ -218,8 +234,8 @@ def drv_corners(c, ctx, col):
         l, r = c.pick([".", "a", "(.)", "(.-a)", "(a-a)", "1", "2"]), c.pick([".", "a", "(.)", "(.-a)", "2", "(a-a)"])
         if "." not in l + r:
             l = "."
-    spaced = c.flag()
-    shape = c.pick(SHAPES)
+    spaced = c.flag() if ctx["spacings"] == 2 else False
+    shape = c.pick(SHAPES[:ctx["shapes"]])
     core = ("%s %s %s" if spaced else "%s%s%s") % (l, op, r)
     s = shape % core
     icpt = not c.flag()
@@ -250,6 +266,25 @@ def drv_shapes(c, ctx, col):
     col.sample({"formula": s, "include_intercept": icpt, "flags": list(flags)})
 
 
+MS_OPERANDS = ["[a~b]", "[c~d]", "[a+b~c]", "[a~b|c]", "[a|b~c]", "[a~b+[c~d]]", "[[a~b]~c]", "[~a]", "[a~]", "[a]", "a", "1", "0", "(a-a)", "."]
+MS_SHAPES = ["%s", "(%s)", "y ~ %s", "[%s ~ z]", "[z ~ %s]", "%s | z"]
+MS_FLAGS = [ALL_FLAGS, ("MULTISTAGE",), ("TWOSIDED", "MULTISTAGE"), FLAG_SETS[0]]
+
+
+def drv_multistage(c, ctx, col):
+    """every operator between multistage groups / ordinary operands, in six surroundings"""
+    op = c.pick(OPS)
+    l, r = c.pick(MS_OPERANDS), c.pick(MS_OPERANDS)
+    if "[" not in l + r:
+        raise Skip()
+    s = c.pick(MS_SHAPES) % ("%s %s %s" % (l, op, r))
+    icpt = not c.flag()
+    flags = c.pick(MS_FLAGS)
+    avail = ["a", "b"] if "." in (l, r) else None
+    judge(col, "multistage", s, icpt, flags, avail)
+    col.sample({"formula": s, "include_intercept": icpt, "flags": list(flags)})
+
+
 # ---------------------------------------------------------------------------
 
 def selftest():
@@ -268,36 +303,40 @@ def subchecks(tier, seed):
     selftest()
     quick = tier == "quick"
     fams = ["empty-left", "empty-right", "exponent", "string", "dot"]
+    a24, a14 = "".join(CHARS24), "".join(CHARS14)
     subs = [
-        Sub("chars24", drv_chars, {"alphabet": CHARS24, "L": 4, "all_flags_upto": 3, "both_icpt_upto": 4, "tag": "chars24"},
-            shard_depth=3, bounds={"alphabet": "".join(CHARS24), "max_length": 4, "all_8_flag_sets_up_to_length": 3,
-                                   "flag_sets_at_length_4": "default; plus NONE and ALL if the string contains ~ | ["}),
-        Sub("tokens", drv_tokens, {"sigma": TOKENS_Q if quick else TOKENS_T, "L": 4}, shard_depth=3,
-            bounds={"alphabet": TOKENS_Q if quick else TOKENS_T, "max_tokens": 4}),
-        Sub("corners", drv_corners, {"families": fams}, shard_depth=3,
-            bounds={"operators": OPS, "empty_sets": EMPTY, "exponents": LITERALS, "strings": STRINGS, "shapes": SHAPES}),
+        Sub("chars24", drv_chars, {"alphabet": CHARS24, "L": 4, "all_flags_upto": 3, "both_icpt_upto": 3 if quick else 4,
+                                   "flag_variation": True, "tag": "chars24"}, shard_depth=3,
+            bounds={"alphabet": a24, "max_length": 4, "all_8_flag_sets_and_both_intercept_modes_up_to_length": 3,
+                    "length_4": "default flags; plus NONE and ALL if the string contains ~ | [; "
+                                + ("intercept on" if quick else "both intercept modes")}),
+        Sub("tokens", drv_tokens, {"sigma": TOKENS_Q if quick else TOKENS_T, "L": 4, "both_icpt_upto": 3 if quick else 4, "all_flags_upto": 4},
+            shard_depth=3, bounds={"alphabet": TOKENS_Q if quick else TOKENS_T, "max_tokens": 4,
+                                   "flags": "all 8 subsets when ~ | [ occur", "intercept": "both up to 3 tokens" if quick else "both"}),
+        Sub("corners", drv_corners, {"families": fams, "shapes": 5, "spacings": 2}, shard_depth=3,
+            bounds={"operators": OPS, "empty_sets": EMPTY, "exponents": LITERALS, "strings": STRINGS,
+                    "shapes": SHAPES, "spacings": ["a+b", "a + b"]}),
         Sub("shapes", drv_shapes, {}, shard_depth=2, bounds={"shapes": UNARY_SHAPES}),
+        Sub("multistage", drv_multistage, {}, shard_depth=2,
+            bounds={"operators": OPS, "operands": MS_OPERANDS, "shapes": MS_SHAPES, "flag_sets": [list(f) for f in MS_FLAGS]}),
     ]
     if quick:
-        subs.append(Sub("chars14", drv_chars, {"alphabet": CHARS14, "L": 5, "all_flags_upto": 0, "both_icpt_upto": 4, "tag": "chars14"},
-                        shard_depth=3, bounds={"alphabet": "".join(CHARS14), "max_length": 5}))
-        first = CHARS14[seed % len(CHARS14)]
-        subs.append(Sub("chars14-seed-slice", drv_chars_slice, {"alphabet": CHARS14, "first": [first, CHARS14[(seed // len(CHARS14)) % len(CHARS14)]],
-                                                                "L": 6, "tag": "chars14"}, shard_depth=2,
-                        bounds={"alphabet": "".join(CHARS14), "length": 6, "first_two_chars": first + CHARS14[(seed // len(CHARS14)) % len(CHARS14)],
+        subs.append(Sub("chars14", drv_chars, {"alphabet": CHARS14, "L": 5, "all_flags_upto": 0, "both_icpt_upto": 4,
+                                               "flag_variation": False, "tag": "chars14"},
+                        shard_depth=3, bounds={"alphabet": a14, "max_length": 5, "intercept": "both up to length 4"}))
+        pre = [CHARS14[seed % 14], CHARS14[(seed // 14) % 14]]
+        subs.append(Sub("chars14-seed-slice", drv_chars, {"alphabet": CHARS14, "prefix": pre, "L": 6, "Lmin": 6, "all_flags_upto": 0,
+                                                          "both_icpt_upto": 0, "flag_variation": False, "tag": "chars14"}, shard_depth=2,
+                        bounds={"alphabet": a14, "length": 6, "first_two_chars": "".join(pre),
                                 "note": "VERIF_SEED-selected exhaustive slice of the thorough scope"}))
     else:
-        subs.append(Sub("chars14", drv_chars, {"alphabet": CHARS14, "L": 6, "all_flags_upto": 0, "both_icpt_upto": 5, "tag": "chars14"},
-                        shard_depth=4, bounds={"alphabet": "".join(CHARS14), "max_length": 6}))
-        subs.append(Sub("tokens-5", drv_tokens, {"sigma": ["a", "1", "0", "+", "-", "*", "/", ":", "**", "~", "|", "(", ")", ".", "[", "]"],
-                                                 "L": 5, "Lmin": 5}, shard_depth=3,
-                        bounds={"alphabet": "a 1 0 + - * / : ** ~ | ( ) . [ ]", "tokens": 5}))
+        subs.append(Sub("chars14", drv_chars, {"alphabet": CHARS14, "L": 6, "all_flags_upto": 0, "both_icpt_upto": 5,
+                                               "flag_variation": False, "tag": "chars14"},
+                        shard_depth=4, bounds={"alphabet": a14, "max_length": 6, "intercept": "both up to length 5"}))
+        subs.append(Sub("chars24-5", drv_chars, {"alphabet": CHARS24, "L": 5, "Lmin": 5, "all_flags_upto": 0, "both_icpt_upto": 0,
+                                                 "flag_variation": False, "tag": "chars24"},
+                        shard_depth=4, bounds={"alphabet": a24, "length": 5, "intercept": "on", "flags": "default"}))
+        sig5 = ["a", "1", "0", "+", "-", "*", "/", ":", "**", "~", "|", "(", ")", ".", "[", "]"]
+        subs.append(Sub("tokens-5", drv_tokens, {"sigma": sig5, "L": 5, "Lmin": 5, "both_icpt_upto": 0, "all_flags_upto": 0}, shard_depth=3,
+                        bounds={"alphabet": sig5, "tokens": 5, "intercept": "on", "flags": "default, NONE, ALL when ~ | [ occur"}))
     return subs
-
-
-def drv_chars_slice(c, ctx, col):
-    rest = c.seq(ctx["alphabet"], ctx["L"] - 2, ctx["L"] - 2)
-    s = "".join(ctx["first"] + rest)
-    flags = c.pick([FLAG_SETS[0], (), ALL_FLAGS]) if any(ch in s for ch in "~|[") else FLAG_SETS[0]
-    judge(col, ctx["tag"], s, True, flags, None)
-    col.sample({"formula": s, "flags": list(flags)})
